@@ -12,8 +12,24 @@ PROP = "C02"
 
 
 def snapshot_loader(ctx):
-    """The body that reads the INDEX file."""
-    return [e.site.body for e in ctx.fx.of_kind("FS_READFILE") if "INDEX" in e.classes]
+    """The body that reads the INDEX file - or, when the read sits in a private probing helper that does not touch the
+    index state (`probe() -> SnapshotSource`), the one function that calls it and does."""
+    prog = ctx.prog
+    out = []
+    for e in ctx.fx.of_kind("FS_READFILE"):
+        if "INDEX" not in e.classes:
+            continue
+        cur = e.site.body
+        for _ in range(3):
+            if sem_set(ctx.may.all_events(cur.path)) & {"INDEX_MUTATE", "REFCNT_MUTATE"}:
+                break
+            callers = [cs for (cs, how) in prog.callers_index().get(cur.path, []) if how == "direct"]
+            if len(callers) != 1 or cur.reachable:
+                break
+            cur = callers[0].body
+        if cur not in out:
+            out.append(cur)
+    return out
 
 
 def loader_family(ctx, loaders):
@@ -170,6 +186,20 @@ def rules(ctx, tier):
     x = c10.end_of_log_rule(ctx, "R8")
     x.title += " (shared with C10-R6)"
     out.append(x)
+    # operations issued after a reopen are preserved by every later reopen: nothing is ever appended behind an end
+    # marker, so the marker is written only when the writer really moves on to the next segment
+    from . import c20
+    r = Rule("R9", "the end-of-segment marker is written only on the roll-over branch, by the writer that is being retired "
+                   "(shared with C20-R6)",
+             "a clean shutdown seals the active segment one record early; after the reopen the next record is appended "
+             "behind the marker and no later open ever reads it")
+    c20.sentinel(ctx, r, must)
+    r.need(3, "marker write site, its flush+sync, its only caller")
+    out.append(r.finish())
+    from . import c18
+    x = c18.one_apply_function(ctx, "R10")
+    x.title += " (shared with C18-R6)"
+    out.append(x)
     return out
 
 
@@ -214,7 +244,12 @@ def logged_is_applied(ctx, r):
             for c in applies:
                 # applied op
                 ops = set()
-                for arg in c.term["args"][1:]:
+                state_adt = ctx.anchors.get("STATE")
+                op_args = [arg for arg in c.term["args"] if place_of(arg) is None or
+                           prog.adt_of(ctx.world._place_ty(b, place_of(arg)))[0] != state_adt]
+                if len(op_args) == len(c.term["args"]):
+                    op_args = c.term["args"][1:]        # (the state is not among the operands: it is the receiver's)
+                for arg in op_args:
                     ops |= sl.leaves_of_operand(arg)
                 # appended bytes
                 data = set()
@@ -258,14 +293,17 @@ def snapshot_version(ctx, r, loaders):
     km = A.get("KEYMAP")
     sv = A.get("SNAPVER")
     # (a) the encoder call inside the saver: both args from the same state parameter
-    savers = set(s.body.path for s in ctx.sem_sites("SNAP_PUBLISH:INDEX"))
-    for p in savers:
+    # (wherever the encoder is called: in the saver, or in a pure `encode(&state) -> Vec<u8>` step split off it)
+    for p in sorted(prog.bodies):
         b = prog.bodies[p]
-        sl = Slicer(ctx.world, b)
+        if b.is_closure:
+            continue
+        sl = None
         for s in b.calls():
             tgt = prog.local_target(s)
-            if tgt is None or len(s.term["args"]) < 2:
+            if tgt is None or len(s.term["args"]) < 2 or "std::vec::Vec<u8>" not in prog.ty_str(tgt.locals[0]):
                 continue
+            sl = sl or Slicer(ctx.world, b)
             la = [sl.leaves_of_operand(a) for a in s.term["args"]]
             kms = [l for ls in la for l in ls if l[0] == "param" and l[2] and l[2][-1] == km[2]]
             svs = [l for ls in la for l in ls if l[0] == "param" and l[2] and l[2][-1] == sv[2]]
@@ -288,13 +326,22 @@ def snapshot_version(ctx, r, loaders):
     def conc(site):
         return sem_set(e for e in ctx.may.site_events(site) if ctx._concrete(e))
     views = []
+    from ..prov import _closure_sites
     for pb in prog.bodies.values():
-        if pb.is_closure:
-            continue
         own_prunes = [s for s in pb.calls() if "WAL_PRUNE" in conc(s) and prog.local_target(s) is not None
                       and prog.local_target(s).path in wal_methods]
         if own_prunes and any("SNAP_PUBLISH:INDEX" in conc(s) for s in pb.calls()):
-            views.append(pb)
+            # (written in a closure - the arm of a `map_or_else`, say: the function the closure is written in)
+            own = pb
+            for _ in range(4):
+                if not own.is_closure:
+                    break
+                cs = _closure_sites(prog, own.path)
+                if not cs:
+                    break
+                own = cs[0][0]
+            if not own.is_closure and own not in views:
+                views.append(own)
     covered = set()
     for pb in views:
         V = ctx.flat(pb, stop=wal_methods)
@@ -534,6 +581,21 @@ def load_rebuilds(ctx, r, loaders, cbs):
                         site_where(s), site_where(s))
 
 
+def _replay_callback_sites(ctx, b0):
+    """Calls of a generic closure parameter that mutates the index, in a body that runs on the open path only (a
+    higher-order helper of the live path - `with_locks(|state, wal| apply(..))` - is not the replayer)."""
+    prog = ctx.prog
+    live = ctx.__dict__.get("_live_reach")
+    if live is None:
+        live = prog.reachable_bodies(ctx.live_roots())
+        ctx.__dict__["_live_reach"] = live
+    if b0.path in live:
+        return []
+    return [s for s in b0.calls() if s.path in FN_TRAIT_CALLS and s.callee.get("rk") != "virtual"
+            and any(how == "param" for _, how in prog.call_targets(s))
+            and "INDEX_MUTATE" in sem_set(ctx.may.site_events(s))]
+
+
 def replay_skips(ctx, r):
     """In the body that invokes the replay callback inside a loop: every branch that can go back to the
     loop header without invoking the callback (and without returning an error) tests only the record's
@@ -542,9 +604,7 @@ def replay_skips(ctx, r):
     from ..prov import _closure_sites
     work = {}
     for b0 in prog.bodies.values():
-        cbsites = [s for s in b0.calls() if s.path in FN_TRAIT_CALLS and s.callee.get("rk") != "virtual"
-                   and any(how == "param" for _, how in prog.call_targets(s))
-                   and "INDEX_MUTATE" in sem_set(ctx.may.site_events(s))]
+        cbsites = _replay_callback_sites(ctx, b0)
         if not cbsites:
             continue
         if b0.is_closure:
@@ -798,9 +858,7 @@ def highest_version_accumulator(ctx, r):
         return None
     done = set()
     for b0 in prog.bodies.values():
-        cb0 = [s for s in b0.calls() if s.path in FN_TRAIT_CALLS and s.callee.get("rk") != "virtual"
-               and any(how == "param" for _, how in prog.call_targets(s))
-               and "INDEX_MUTATE" in sem_set(ctx.may.site_events(s))]
+        cb0 = _replay_callback_sites(ctx, b0)
         if not cb0:
             continue
         from .. import flat as flatmod
